@@ -144,6 +144,7 @@ class Scenario:
         self.holder = {}          # name -> executor (user-visible references)
         self.nexec = 0
         self.maxreg = {}
+        self.rejected = set()
 
     # ---- executor creation with named primitives
     def _roles(self):
@@ -185,6 +186,9 @@ class Scenario:
         self._instrument(e)
         return e
 
+    def submitters_done(self):
+        return all(r["state"] == "done" for r in esim.S.recs.values() if r["role"].startswith("u"))
+
     # ---- user operations
     def do(self, u, op):
         S = esim.S
@@ -205,12 +209,15 @@ class Scenario:
             try:
                 f = e.submit(tasks.body, *args)
             except BaseException as ex:
+                self.rejected.add(tid)
                 S.obs(ev="submit_rejected", u=u, t=tid, type=type(ex).__name__, mro=[c.__name__ for c in type(ex).__mro__])
                 return
             self.futs[tid] = f
             S.obs(ev="submit", u=u, t=tid, kind=kind, eid=id(e))
             f.add_done_callback(lambda fut, tid=tid: self._resolved(tid, fut))
         elif k == "cancel":
+            if op[1] not in self.futs and op[1] not in self.rejected:
+                S.step("user.wait_submitted(%s)" % op[1], pred=lambda: op[1] in self.futs or op[1] in self.rejected or self.submitters_done())
             f = self.futs.get(op[1])
             if f is not None:
                 S.obs(ev="cancel_call", u=u, t=op[1])
@@ -333,6 +340,7 @@ class Policy:
         self.crash_at = list(spec.get("crash_at", []))    # [{"label": "...", "role": "W", "nth": 1}]
         self.prio = {}
         self.low = spec.get("low", [])
+        self.order = spec.get("order")
         self.change = spec.get("change", 0.05)
         self.hits = {}
         self.ncrash = 0
@@ -341,6 +349,10 @@ class Policy:
         p = self.prio.get(r["name"])
         if p is None:
             p = self.rng.random()
+            if self.order:
+                role = "W" if r["role"].startswith("W") else r["role"].rstrip("0123456789")
+                idx = self.order.index(role) if role in self.order else len(self.order)
+                p = 10.0 - idx + 0.5 * self.rng.random()
             if any(r["role"].startswith(x) for x in self.low):
                 p -= 1.0
             self.prio[r["name"]] = p
@@ -353,7 +365,12 @@ class Policy:
             for r in S.ready():
                 if r["proc"] == "parent" or not r["role"].startswith("W"):
                     continue
-                if r["label"] == c["label"]:
+                lab = r["label"]
+                if c["label"] == "exitlock" and lab.startswith("exitlock"):
+                    lab = "exitlock"
+                if lab == c["label"]:
+                    if "announcing" in c and lab.startswith("rq.") and c["announcing"] == ("task.run" in r.get("since_get", [])):
+                        continue
                     key = (r["name"], c["label"], r["nops"])
                     if key in self.hits:
                         continue
